@@ -127,6 +127,9 @@ pub struct Kernel {
     pub c17: Option<(String, String)>,
     pub moved: usize,
     pub accept_fd: c_int,
+    /// an inner request pointed outside the caller's buffers: the scripted kernel refused it
+    /// (EFAULT) instead of touching foreign memory
+    pub refused: bool,
 }
 
 thread_local! {
@@ -161,6 +164,17 @@ impl Kernel {
         if self.c17.is_none() {
             self.c17 = Some((sig.to_string(), msg));
         }
+    }
+
+    /// may the scripted kernel touch these ranges at all? (inside the caller's buffers)
+    fn ranges_safe(&self, ranges: &[(usize, usize)]) -> bool {
+        ranges.iter().all(|(b, l)| {
+            *l == 0
+                || match (self.pos_of(*b), self.pos_of(b + l - 1)) {
+                    (Some(p0), Some(p1)) => p1 == p0 + l - 1,
+                    _ => false,
+                }
+        })
     }
 
     /// C17 oracle for one vectored inner call
@@ -214,10 +228,13 @@ impl Kernel {
 
     /// the scripted kernel proper
     fn io(&mut self, what: &str, claimed: usize, ranges: Vec<(usize, usize)>, vectored: bool) -> isize {
-        let ok = if vectored { self.check_ranges(what, &ranges) } else { self.check_ranges(what, &ranges) };
+        let _ = vectored;
+        let _valid = self.check_ranges(what, &ranges);
+        let safe = self.ranges_safe(&ranges);
         let offered: usize = ranges.iter().map(|r| r.1).sum();
         let resp = self.next();
-        let (result, errno) = if !ok {
+        let (result, errno) = if !safe {
+            self.refused = true;
             (-1, libc::EFAULT)
         } else {
             match resp {
@@ -656,11 +673,10 @@ pub fn judge(c: &Case, obs: &Obs, which: Which) -> Outcome {
     if !c.call.is_data() {
         return o;
     }
-    if let Some((s, _)) = &k.c17 {
-        // the request itself was malformed (C17's business); the byte accounting of such a
-        // call is not judged
-        o.excluded = Some("inner-request-malformed(C17)");
-        let _ = s;
+    if k.refused {
+        // an inner request pointed outside the caller's buffers and was refused by the
+        // scripted kernel (C17's business); the byte accounting of such a call is not judged
+        o.excluded = Some("inner-request-outside-the-callers-buffers(C17)");
         return o;
     }
     let moved = k.moved;
